@@ -23,8 +23,10 @@ NONSTR = [0, 1, -1, True, False, 1.5, 10 ** 12]
 KEYS = ['SocksPort', 'ORPort', 'ContactInfo']
 
 
-def feature(values):
+def feature(values, keys=()):
     cs = set()
+    if len(set(keys)) != len(keys):
+        cs.add('repeated-key')
     for v in values:
         for c in v:
             if c in CNAME:
@@ -40,6 +42,7 @@ def run_one(pairs):
         flat += [k, v]
     want = [(k, str(v)) for k, v in pairs]
     strs = [w[1] for w in want]
+    keys = [w[0] for w in want]
     with World() as w:
         ctl = Ctl(w)
         raised = None
@@ -55,17 +58,17 @@ def run_one(pairs):
         has_nl = any(('\r' in s or '\n' in s) for s in strs)
         if raised is not None or (res is not None and res[0] == 'err'):
             if data:
-                viol.append(('refused-but-wrote', feature(strs), 'refused %r but wrote %r' % (pairs, data)))
+                viol.append(('refused-but-wrote', feature(strs, keys), 'refused %r but wrote %r' % (pairs, data)))
             elif not has_nl:
-                viol.append(('refused-encodable-value', feature(strs), 'set_conf%r refused: %r' % (tuple(flat), raised or res)))
+                viol.append(('refused-encodable-value', feature(strs, keys), 'set_conf%r refused: %r' % (tuple(flat), raised or res)))
             outcome = 'refused'
         else:
             outcome = 'sent'
             if not data.endswith(b'\r\n'):
-                viol.append(('no-crlf', feature(strs), 'wire %r' % (data,)))
+                viol.append(('no-crlf', feature(strs, keys), 'wire %r' % (data,)))
             body = data[:-2] if data.endswith(b'\r\n') else data
             if b'\n' in body:
-                viol.append(('more-than-one-line', feature(strs),
+                viol.append(('more-than-one-line', feature(strs, keys),
                              'set_conf%r wrote %d lines: %r' % (tuple(flat), body.count(b'\n') + 1, data)))
             else:
                 try:
@@ -73,14 +76,14 @@ def run_one(pairs):
                 except UnicodeDecodeError:
                     text = body.decode('latin-1')
                 if not text.startswith('SETCONF '):
-                    viol.append(('not-setconf', feature(strs), 'wire %r' % (data,)))
+                    viol.append(('not-setconf', feature(strs, keys), 'wire %r' % (data,)))
                 else:
                     try:
                         got = kvline.parse(text[len('SETCONF '):])
                     except kvline.KVError as e:
                         got = 'parse error: %s' % e
                     if got != want:
-                        viol.append(('roundtrip', feature(strs),
+                        viol.append(('roundtrip', feature(strs, keys),
                                      'set_conf%r wrote %r which Tor parses as %r' % (tuple(flat), data, got)))
         errs = w.errors()
         if errs:
@@ -176,12 +179,15 @@ def run_task(param, acc):
         acc.sample(dict(pairs=pairs, wire=r['obs'][1]), limit=1)
     elif param[0] == 'multi':
         a = param[1]
+        # key patterns: distinct keys and every way of repeating a key (Tor options are set by repeating the key)
+        patterns = {1: [(0,)], 2: [(0, 1), (0, 0)], 3: [(0, 1, 2), (0, 0, 0), (0, 0, 1), (0, 1, 0), (0, 1, 1)]}
         for n in (1, 2, 3):
             for rest in itertools.product(SUBSET, repeat=n - 1):
                 vals = (a,) + rest
-                pairs = tuple((KEYS[i], v) for i, v in enumerate(vals))
-                r = run_one(pairs)
-                record(acc, pairs, r, n > 1)
+                for pat in patterns[n]:
+                    pairs = tuple((KEYS[pat[i]], v) for i, v in enumerate(vals))
+                    r = run_one(pairs)
+                    record(acc, pairs, r, n > 1)
         acc.sample(dict(pairs=pairs, wire=r['obs'][1]), limit=1)
     else:
         for v in NONSTR:
